@@ -112,10 +112,15 @@ def gen_arg_for(cs, ty, bytes_mode):
     if ty == 'c':
         if bytes_mode:
             return {'t': 'bytes', 'v': '%02x' % cs.byte()}
-        return {'t': 'char', 'v': cs.pick('aZ 0é中\U0001f600\x00~')}
+        if cs.bool(128):
+            cp = cs.choice(0x110000)
+            return {'t': 'char', 'v': chr(cp) if not 0xD800 <= cp <= 0xDFFF else '\ud7ff'}
+        return {'t': 'char', 'v': cs.pick('aZ 0é中\U0001f600\x00~\x7f\x80\xff\u0100\uffff\U00010000\U0010ffff')}
     if bytes_mode:
         n = cs.choice(12)
         return {'t': 'bytes', 'v': bytes(cs.pick(b'ab\x00\xff %') for _ in range(n)).hex()}
+    if cs.bool(80):
+        return {'t': 'str', 'v': vg.gen_text(cs, 10)}     # every character class, any code point
     return {'t': 'str', 'v': vg.gen_text(cs, 10, ['abc', 'éß', '中', '\U0001f600', "'\"\\", ' %', '\n\t'])}
 
 
@@ -138,6 +143,17 @@ def sut_arg(arg, ty, bytes_mode):
     if arg['t'] == 'bytes' and ty in 'ra':
         return {'t': 'bytes', 'v': ascii(bytes.fromhex(arg['v'])).encode('ascii').hex()}
     return arg
+
+
+def gen_unsupported_char(cs):
+    """any character that is no conversion type, flag, digit or other part of a specifier"""
+    for _ in range(4):
+        cp = cs.choice(0x3000) if cs.bool() else cs.choice(0x110000)
+        ch = chr(cp)
+        if 0xD800 <= cp <= 0xDFFF or ch in 'diouxXeEfFgGcrsab%hlL#0- +.*(123456789':
+            continue
+        return ch
+    return 'y'
 
 
 UNSUPPORTED = 'ykpnzvwtjmqIOU!$&@,;:~^|é中_)/\\"\' \x00'
@@ -249,7 +265,7 @@ class C19(Property):
                 if cs.bool(24):
                     s += cs.pick('hlL')
                 if cs.bool(12):
-                    s += cs.pick(UNSUPPORTED)
+                    s += cs.pick(UNSUPPORTED) if cs.bool(170) or bytes_mode else gen_unsupported_char(cs)
                 else:
                     s += cs.pick(BYTES_TYPES if bytes_mode else TEXT_TYPES)
                 t += s
